@@ -51,6 +51,10 @@ func sand(xs ...string) string {
 		if x == "false" {
 			return "false"
 		}
+		if strings.HasPrefix(x, "(and ") && balancedOne(x) {
+			ys = append(ys, splitArgs(x[5:len(x)-1])...)
+			continue
+		}
 		ys = append(ys, x)
 	}
 	if len(ys) == 0 {
